@@ -26,6 +26,11 @@ EXTENDS Integers, Sequences, FiniteSets, TLC
 \* A text is a sequence of tokens; a token is a TLA+ string holding the AWK
 \* spelling.  The harness joins tokens with blanks (no blank between a
 \* function or array name and the bracket that follows it).
+\* Spacing: the tree of a text does not depend on blanks between tokens.  Besides the blank-separated text the harness
+\* also parses the compact text, in which a blank is kept only where leaving it out could change the TOKENS: between two
+\* tokens of which the first ends and the second begins with a word character (letter, digit, _, ., quote), between a
+\* word and ( or [, between two tokens made of operator characters (+ - * / % ^ = < > ! & | ~ ? : , $), and around
+\* regex literals and /.  (-2 ^ 2 and - 2 ^ 2 are the same tree: the sign is an operator, not part of the number.)
 LeafNames == <<"a","b","c","d","e","g","h","k","m","n","p","q","r","s","t","u","v","w","x","y","z">>
 NLeaf == Len(LeafNames)
 LeafName(i) == LeafNames[((i - 1) % NLeaf) + 1]
